@@ -20,12 +20,40 @@ func (e *Engine) nameArg(st *St, v Value) string {
 	return s
 }
 
-// Fresh returns the next nondeterministic value for name.
+// NDCount: how many values of each name were drawn along the current path. It lives in the heap
+// (reserved object) so that it forks and merges with the state: the k-th draw of a name along a
+// path is variable name#k on every path, exactly as in a native run.
+type NDCount struct{ m map[string]int }
+
+const ndObj ObjID = -1
+
+// Fresh returns the next nondeterministic value for name along the current path.
 func (e *Engine) Fresh(name string, w int, signed bool) *T {
-	k := e.nondetCount[name]
-	e.nondetCount[name] = k + 1
+	st := e.cur
+	k := 0
+	var cur *NDCount
+	if st != nil {
+		if v, ok := st.heap.lookup(ndObj); ok {
+			cur = v.(*NDCount)
+			k = cur.m[name]
+		}
+		nm := make(map[string]int, 4)
+		if cur != nil {
+			for kk, vv := range cur.m {
+				nm[kk] = vv
+			}
+		}
+		nm[name] = k + 1
+		st.heap.set(ndObj, &NDCount{m: nm})
+	} else {
+		k = e.nondetCount[name]
+		e.nondetCount[name] = k + 1
+	}
 	full := fmt.Sprintf("%s#%d", name, k)
-	e.Nondets = append(e.Nondets, NondetInfo{Name: full, W: w, Signed: signed})
+	if !e.ndSeen[full] {
+		e.ndSeen[full] = true
+		e.Nondets = append(e.Nondets, NondetInfo{Name: full, W: w, Signed: signed})
+	}
 	if e.Concrete != nil {
 		return e.S.Const(uint64(e.Concrete[full]), w)
 	}
@@ -372,5 +400,41 @@ func init() {
 			delete(e.files, name)
 		}
 		return &IfaceV{Alts: []IfaceAlt{{G: e.S.True}}}
+	}
+}
+
+// sort.Slice uses reflection (reflectlite.Swapper); it is modelled by what the real function does
+// for fewer than 12 elements: a (stable) insertion sort driven by the caller's less function.
+func init() {
+	builtinIntrinsics["sort.Slice"] = func(e *Engine, st *St, args []Value, fn *ssa.Function) Value {
+		iv, ok := args[0].(*IfaceV)
+		if !ok || len(iv.Alts) != 1 {
+			e.unsupported("sort.Slice on a value of unknown type")
+		}
+		sl, ok := iv.Alts[0].V.(*SliceV)
+		if !ok || !sl.Len.IsConst() {
+			e.unsupported("sort.Slice on a slice of symbolic length")
+		}
+		n := int(sl.Len.Int())
+		if n >= 12 {
+			e.unsupported("sort.Slice model covers fewer than 12 elements")
+		}
+		less := args[1].(*FuncV)
+		for i := 1; i < n; i++ {
+			active := e.S.True
+			for j := i; j > 0; j-- {
+				r := e.callFuncV(st, less, []Value{e.c64(int64(j)), e.c64(int64(j - 1))}, nil).(*T)
+				c := e.S.And(active, r)
+				if c.IsFalse() {
+					break
+				}
+				pj, pj1 := e.elemPtr(sl, e.c64(int64(j))), e.elemPtr(sl, e.c64(int64(j-1)))
+				vj, vj1 := e.Load(st, pj, "sort swap"), e.Load(st, pj1, "sort swap")
+				e.storeCond(st, pj, vj1, c)
+				e.storeCond(st, pj1, vj, c)
+				active = c
+			}
+		}
+		return nil
 	}
 }
